@@ -11,6 +11,7 @@ Fock-space soundness of freeze_orbitals for whole operators, SCBK sector): Spec 
 import OFV.Proofs.C16
 import OFV.Proofs.C16Pauli
 import OFV.Proofs.C16Loop
+import OFV.Proofs.C16Proj
 
 namespace OFV.C16
 open OFV OFV.Spec OFV.Model OFV.Model.C16 OFV.C16P OFV.Generated
@@ -184,6 +185,72 @@ theorem reduce_terms_agrees_on_codespace_partial (terms out : Model.Op) (stabs :
 example : (match reduceTerms 0 [([(0, 3), (1, 3)], 1), ([(0, 2), (1, 2)], 1)] [[([(0, 1), (1, 1)], 1)]] false [] with
     | .ok r => r.1.length
     | .error _ => 99) = 1 := by decide +kernel
+
+/-! ### `project_onto_sector` as matrix elements between embedded states
+
+`Emb qubits sectors E` says that `E` embeds basis states of the small register into the full one:
+kept qubit `q` sits at bit `shiftDown qubits q` of the small mask, removed qubits carry their
+sector value (OFV/Proofs/C16Proj.lean; `emb_example` is an instance). -/
+
+/-- **a kept term** (Pauli codes 1..3, no `X` / `Y` on a removed qubit): its matrix elements between
+embedded states are those of the re-indexed term times `(-1)^(number of Z on sector-1 qubits)` —
+the coefficient `project_onto_sector` stores.  Tolerance-free, any term length. -/
+theorem project_term_kept (qubits sectors : List Nat) (E : Nat → Nat) (hE : Emb qubits sectors E)
+    (hsec : ∀ q, sectors[indexOf qubits q]?.getD 0 = 0 ∨ sectors[indexOf qubits q]?.getD 0 = 1)
+    (τ : Model.Term) (hp : Pauli123 τ) (hz : ∀ f ∈ τ, f.1 ∈ qubits → f.2 = 3) (s t : Nat) :
+    Sem.termCoef .qubit τ [E s] [E t]
+      = GQ.sgn (expo qubits sectors τ) * Sem.termCoef .qubit (newTerm qubits τ) [s] [t] :=
+  termCoef_kept qubits sectors E hE hsec τ hp hz s t
+
+/-- **a dropped term** (`X` or `Y` on a removed qubit, distinct qubit indices) has no matrix element
+inside the sector. -/
+theorem project_term_dropped (qubits sectors : List Nat) (E : Nat → Nat) (hE : Emb qubits sectors E)
+    (τ : Model.Term) (hd : τ.Pairwise (fun a b => a.1 ≠ b.1))
+    (hxy : τ.any (fun t => qubits.contains t.1 && (t.2 == 1 || t.2 == 2)) = true) (s t : Nat) :
+    Sem.termCoef .qubit τ [E s] [E t] = 0 :=
+  termCoef_dropped qubits sectors E hE τ hd hxy s t
+
+/- Full statement: for the live tolerance as well.  Proved for the loop run without pruning (`tol = 0`);
+   missing: that no partial sum of `projected_operator +=` is non-zero but below `1e-8`. -/
+/-- **`project_onto_sector_sound`** (pruning-free arithmetic): if `project_onto_sector` succeeds on an
+operator whose terms are Pauli strings on distinct qubits, then
+`⟨t| projected |s⟩ = ⟨E t| operator |E s⟩` for all basis states `s, t` of the small register — the
+matrix elements of the shared Spec (`Spec.applyOp .qubit`). -/
+theorem project_onto_sector_sound_partial (A B : Model.Op) (qubits sectors : List Nat) (E : Nat → Nat)
+    (hE : Emb qubits sectors E)
+    (hA : ∀ e ∈ A, Pauli123 e.1 ∧ e.1.Pairwise (fun a b => a.1 ≠ b.1))
+    (h : projectOntoSector 0 A qubits sectors = .ok B) (s t : Nat) :
+    GV.coeff (applyOp .qubit B [s]) [t] = GV.coeff (applyOp .qubit A [E s]) [E t] := by
+  unfold projectOntoSector at h
+  split at h
+  · cases h
+  · split at h
+    · cases h
+    · rename_i hany
+      have hsec : ∀ q, sectors[indexOf qubits q]?.getD 0 = 0 ∨ sectors[indexOf qubits q]?.getD 0 = 1 := by
+        intro q
+        cases hg : sectors[indexOf qubits q]? with
+        | none => left; rfl
+        | some v =>
+          have hm : v ∈ sectors := List.mem_of_getElem? hg
+          have : ¬ (sectors.any (fun i => decide (i ≠ 0 ∧ i ≠ 1)) = true) := hany
+          rw [List.any_eq_true] at this
+          have h2 : ¬ (v ≠ 0 ∧ v ≠ 1) := fun hv => this ⟨v, hm, by simpa using hv⟩
+          simp only [Option.getD_some]
+          omega
+      cases h
+      have := project_fold qubits sectors E hE hsec s t A [] hA
+      rw [Sem.den_nil, zero_add] at this
+      exact this
+
+/-- non-vacuity: removing qubit 0 in sector 1 (`E s = 2s + 1`) from `Z0 X1 + X0` -/
+example : Emb [0] [1] (fun s => 2 * s + 1) ∧
+    (∀ e ∈ ([([(0, 3), (1, 1)], 1), ([(0, 1)], 1)] : Model.Op),
+      Pauli123 e.1 ∧ e.1.Pairwise (fun a b => a.1 ≠ b.1)) :=
+  ⟨emb_example, by
+    intro e he
+    simp only [List.mem_cons, List.not_mem_nil, or_false] at he
+    rcases he with rfl | rfl <;> simp [Pauli123]⟩
 
 /-- **`rotate_qubit_by_pauli_sound`**: for a Pauli string `P` on distinct qubits, `c² + s² = 1`,
 called with `cos 2θ = c² - s²`, `sin 2θ = 2cs`, the Model of `rotate_qubit_by_pauli` succeeds and
